@@ -1953,7 +1953,7 @@ func resolveIndex(v, index reflect.Value, indexAsStr string) (reflect.Value, err
 			return reflect.Value{}, fmt.Errorf("can't use %s (%s) as key for map of type %s", indexAsStr, indexVal.Type(), v.Type())
 		}
 		index = indexVal.Convert(v.Type().Key()) // noop in most cases, but not expensive
-		if canNumber(indexVal.Kind()) && canNumber(index.Kind()) && !checkEquality(indexVal, index) {
+		if canNumber(indexVal.Kind()) && canNumber(index.Kind()) && (!checkEquality(indexVal, index) || signLost(indexVal, index)) {
 			// the number does not fit the key type (300 for a uint8 key, 1.5 for an int key): what it wraps
 			// or truncates to is another key; this one is not in the map
 			return reflect.Value{}, nil
@@ -1973,6 +1973,18 @@ func resolveIndex(v, index reflect.Value, indexAsStr string) (reflect.Value, err
 		}
 	}
 	return reflect.Value{}, fmt.Errorf("can't evaluate index %s (%s) in type %s", index, indexAsStr, getTypeString(v))
+}
+
+// signLost reports whether converting the integer v to the integer type of conv turned a negative number into
+// a huge unsigned one or the other way round (the two still compare equal once both are wrapped).
+func signLost(v, conv reflect.Value) bool {
+	switch {
+	case isInt(v.Kind()) && isUint(conv.Kind()):
+		return v.Int() < 0
+	case isUint(v.Kind()) && isInt(conv.Kind()):
+		return conv.Int() < 0
+	}
+	return false
 }
 
 // from Go's text/template's funcs.go:
